@@ -39,3 +39,97 @@ Theorem C05_spec_erasures :
     src_pty defs root alloc compact bits order (SVecDeque t) = src_pty defs root alloc compact bits order (SVec t).
 Proof. intros. repeat split. Qed.
 Print Assumptions C05_spec_erasures.
+
+(** ** the round trip as a theorem (Proofs/SourceRoundTrip.v)
+
+    FULL STATEMENT ([C05_skeleton_is_source]): for [RegistryOf prog L r] (Model/Program.v: [L] labels
+    ids with closed canonical source types, injectively; every entry is locally what the derive
+    produces for its label), an id labelled [SApp d args] with [instantiation_cf], and the IR
+    [create_type_ir r s t flat = Ok (Some ir)] of its entry: [ti_params ir] are exactly the
+    non-skipped parameters with [tpi_idx] = declared position; every field of [ir], up to the
+    ids stored in [Param] nodes, is [normal_field] of the SOURCE field (path = [src_tpath] of the
+    source field type: parameters in the same positions, Box / Cow transparent, VecDeque = Vec;
+    compact and boxed flags as [field_compact] / [has_box]), so that
+    [tpath_pty (fi_path f) = field_pty sf] read as parsed types; [ti_unused ir] = the declared
+    generics not in [body_params]; hence all instantiations have [erase_ids]-equal IRs.
+
+    PROVED below (the [_partial] theorems), universally, by induction on the source field type:
+    parameters and all fields ([erase_fi fi = normal_field sf], which contains the path, the
+    compact flag and the boxed flag), for definitions whose field types are in [src_fragment]:
+    parameters, applications of definitions (any nesting, skipped parameters), Vec, VecDeque,
+    arrays, tuples, primitives, Compact (explicit and [#[codec(compact)]]), Box.
+    MISSING: (1) the prelude types Option / Result / BTreeMap / BTreeSet / Cow / Range and bit
+    sequences (they are in [RegistryOf], [src_tpath] and [registry_ofb], not in the induction);
+    substituted definition paths ([def_okb]); (2) [ti_unused] and the names of fields / variants
+    (so [erase_ids ir1 = erase_ids ir2] is proved for the parameter positions and the fields only);
+    (3) the reading [tpath_pty (src_tpath sigma) = src_pty sigma] as a general lemma - it is
+    evaluated on the example ([C05_example]); (4) soundness of [registry_ofb] w.r.t. [RegistryOf]
+    and the Coq re-implementation of the harness interner ([intern_program]) - [RegistryOf] is
+    proved directly for the example and [registry_ofb] evaluates to [true] on it.
+    Extra decidable hypotheses found while proving: the arguments of the label are canonical
+    ([map canon args = args], true of labels); [compact_fields_okb]: a [#[codec(compact)]] field
+    whose [Compact<..>] type coincides with an argument must record a type name different from
+    that parameter's name (else [find_parent] takes it for the parameter); [box_names_okb]: the
+    recorded type name contains ["Box<"] exactly when the source type mentions Box. *)
+From V Require Import Base.Result Model.Settings Model.TypePath Model.Generate Model.WellFormed Model.Shape
+  Proofs.SourceRoundTrip.
+
+Theorem C05_skeleton_is_source_partial :
+  forall (defs : list sdef) (L : N -> option src) (r : registry) (s : settings) (order_tp : bool -> tpath),
+  RegistryOf defs L r ->
+  (forall sd, In sd defs -> def_okb s sd = true) ->
+  forall (d : nat) (sd : sdef) (args : list src),
+  nth_error defs d = Some sd ->
+  instantiation_cf defs sd args = true ->
+  map canon args = args ->
+  forallb field_fragment (def_sfields sd) = true ->
+  compact_fields_okb defs sd args = true ->
+  box_names_okb defs sd = true ->
+  forall t : ty, entry_of defs L r (SApp d args) t ->
+  forall flat ir, create_type_ir r s t flat = Ok (Some ir) ->
+  map tpi_idx (ti_params ir) = map N.of_nat (generics_of sd) /\
+  Forall2 (fun sf fi => erase_fi fi = normal_field defs s order_tp sf)
+          (def_sfields sd) (kind_fields (ti_kind ir)).
+Proof. exact skeleton_is_source. Qed.
+Print Assumptions C05_skeleton_is_source_partial.
+
+(** two instantiations of one definition: same parameter positions, same fields up to ids
+    (the part of [skeleton_consistent] - the hypothesis of [C01_fidelity] - that concerns
+    parameters and field types) *)
+Theorem C05_one_item_partial :
+  forall defs L r s (order_tp : bool -> tpath),
+  RegistryOf defs L r -> (forall sd, In sd defs -> def_okb s sd = true) ->
+  forall d sd, nth_error defs d = Some sd ->
+  forallb field_fragment (def_sfields sd) = true -> box_names_okb defs sd = true ->
+  forall args1 args2 t1 t2 flat1 flat2 ir1 ir2,
+  instantiation_cf defs sd args1 = true -> map canon args1 = args1 -> compact_fields_okb defs sd args1 = true ->
+  instantiation_cf defs sd args2 = true -> map canon args2 = args2 -> compact_fields_okb defs sd args2 = true ->
+  entry_of defs L r (SApp d args1) t1 -> entry_of defs L r (SApp d args2) t2 ->
+  create_type_ir r s t1 flat1 = Ok (Some ir1) -> create_type_ir r s t2 flat2 = Ok (Some ir2) ->
+  map tpi_idx (ti_params ir1) = map tpi_idx (ti_params ir2) /\
+  Forall2 (fun f1 f2 => erase_fi f1 = erase_fi f2) (kind_fields (ti_kind ir1)) (kind_fields (ti_kind ir2)).
+Proof. exact one_item. Qed.
+Print Assumptions C05_one_item_partial.
+
+(** non-vacuity: [a::Foo<T, #[skip] U> { x: T, y: Box<Vec<T>>, #[codec(compact)] n: u32 }] at
+    [u16] and [bool]: the registry satisfies [RegistryOf] (and [registry_ofb]), every hypothesis
+    holds, the IRs exist, and the fields read as parsed types are the source field types *)
+Theorem C05_example :
+  RegistryOf ex5_defs ex5_L ex5_reg /\ registry_ofb ex5_defs ex5_labels ex5_reg = true /\
+  (forall sd, In sd ex5_defs -> def_okb ex5_s sd = true) /\
+  nth_error ex5_defs 0 = Some ex5_sd /\
+  forallb field_fragment (def_sfields ex5_sd) = true /\ box_names_okb ex5_defs ex5_sd = true /\
+  instantiation_cf ex5_defs ex5_sd [SPrimT PU16; SPrimT PStr] = true /\
+  instantiation_cf ex5_defs ex5_sd [SPrimT PBool; SPrimT PStr] = true /\
+  compact_fields_okb ex5_defs ex5_sd [SPrimT PU16; SPrimT PStr] = true /\
+  compact_fields_okb ex5_defs ex5_sd [SPrimT PBool; SPrimT PStr] = true /\
+  (exists ir, create_type_ir ex5_reg ex5_s (ex5_foo 1 2 3) flat0 = Ok (Some ir) /\
+              map erase_fi (kind_fields (ti_kind ir)) = map (normal_field ex5_defs ex5_s ex5_otp) (def_sfields ex5_sd) /\
+              map (fun f => let p := tpath_pty ["std"] (fi_path f) in
+                            if fi_boxed f then abs_p (["std"] ++ ["boxed"; "Box"]) [p] else p)
+                  (kind_fields (ti_kind ir)) =
+              map (field_pty ex5_defs "root" ["std"] (["codec"; "Compact"], true) ([], false) (fun _ => PBad))
+                  (def_sfields ex5_sd)) /\
+  (exists ir, create_type_ir ex5_reg ex5_s (ex5_foo 6 7 3) flat0 = Ok (Some ir)).
+Proof. exact (conj ex5_RegistryOf (conj ex5_registry_ofb ex5_hypotheses)). Qed.
+Print Assumptions C05_example.
